@@ -20,6 +20,10 @@ use tracing::{debug, instrument, warn};
 
 use crate::rpc::{ClnRpc, RpcError};
 
+/// Time to wait before asking the node about a payment again, after the
+/// previous attempt to do so failed.
+const WAIT_PAYMENT_RETRY_INTERVAL: Duration = Duration::from_secs(1);
+
 /// The `PaymentProvider` trait exposes a `pay` method.
 #[cfg_attr(test, automock)]
 #[async_trait]
@@ -55,6 +59,27 @@ where
             retry_for: retryfor,
             rpc,
             xpay,
+        }
+    }
+}
+
+impl<R> PayPaymentProvider<R>
+where
+    R: ClnRpc + Send + Sync,
+{
+    /// Waits until the outcome of the payment is known. A failure to query
+    /// the node says nothing about the payment itself: parts may still be
+    /// pending or may have completed. So rather than reporting the payment as
+    /// failed, ask again until the node answers.
+    async fn wait_payment_outcome(&self, payment_hash: sha256::Hash) -> Option<Vec<u8>> {
+        loop {
+            match self.wait_payment(payment_hash).await {
+                Ok(maybe_preimage) => return maybe_preimage,
+                Err(e) => {
+                    warn!("failed to await payment, retrying: {:?}", e);
+                    tokio::time::sleep(WAIT_PAYMENT_RETRY_INTERVAL).await;
+                }
+            }
         }
     }
 }
@@ -110,7 +135,7 @@ where
             Ok(resp) => resp,
             Err(e) => {
                 debug!("pay returned error {:?}", e);
-                return match self.wait_payment(req.payment_hash).await? {
+                return match self.wait_payment_outcome(req.payment_hash).await {
                     Some(preimage) => Ok(preimage),
                     None => Err(anyhow!(e.to_string())),
                 };
@@ -125,7 +150,7 @@ where
             PayStatus::COMPLETE => return Ok(resp.payment_preimage.to_vec()),
             PayStatus::PENDING => {
                 warn!("payment is pending after pay returned");
-                return match self.wait_payment(req.payment_hash).await? {
+                return match self.wait_payment_outcome(req.payment_hash).await {
                     Some(preimage) => Ok(preimage),
                     None => Err(anyhow!("payment failed")),
                 };
@@ -133,7 +158,7 @@ where
             PayStatus::FAILED => {
                 if let Some(warning) = resp.warning_partial_completion {
                     warn!("pay returned partial completion: {}", warning);
-                    return match self.wait_payment(req.payment_hash).await? {
+                    return match self.wait_payment_outcome(req.payment_hash).await {
                         Some(preimage) => Ok(preimage),
                         None => Err(anyhow!("payment failed")),
                     };
